@@ -1,3 +1,1044 @@
-//! C12 — bounded checks (to be written)
-use crate::ctx::Ctx;
-pub fn run(_ctx: &mut Ctx) {}
+//! C12 — functor application is the generator-wise substitution it is defined by.
+//!
+//! Oracle (`subst`): written from the statement.  Every node i of the argument becomes a block of
+//! |F(w_i)| fresh nodes labelled F(w_i); both interfaces and every source/target list are expanded
+//! block by block; for every hyperedge a disjoint copy of the image of its operation is added and
+//! its j-th input (output) is identified with the j-th node of the expanded source (target) list;
+//! the identifications are closed naively (`model::quotient`).  The library result is compared with
+//! a witness-producing isomorphism search (`model::iso`), so any numbering of nodes/edges passes.
+//!
+//! A functor is a *table*: object map `obj[label] -> list of labels`, operation map
+//! `(op label, source type, target type) -> diagram (+ optional pending unifications)`, recorded in
+//! the JSON input so that a failing input can be replayed.
+use crate::ctx::{guard, Ctx, Rng};
+use crate::model::*;
+use open_hypergraphs::array::vec::*;
+use open_hypergraphs::finite_function::FiniteFunction;
+use open_hypergraphs::indexed_coproduct::IndexedCoproduct;
+use open_hypergraphs::lax;
+use open_hypergraphs::lax::functor as lf;
+use open_hypergraphs::operations::Operations;
+use open_hypergraphs::semifinite::SemifiniteFunction;
+use open_hypergraphs::strict::functor as sfun;
+use open_hypergraphs::verif_hooks as hooks;
+use serde_json::{json, Value};
+
+type Check = fn(&mut Ctx, &Value);
+const CHECKS: &[(&str, Check)] = &[
+    ("map_arrow_lax", chk_map_arrow_lax),
+    ("map_arrow_strict", chk_map_arrow_strict),
+    ("pieces", chk_pieces),
+    ("identity", chk_identity),
+    ("functorial", chk_functorial),
+];
+
+pub type SemIC = IndexedCoproduct<VecKind, SF<u8>>;
+pub type Sig = (u8, Vec<u8>, Vec<u8>);
+
+// ------------------------------------------------------------------------------------------------
+// table functors
+// ------------------------------------------------------------------------------------------------
+#[derive(Clone, Debug)]
+pub struct OpImg {
+    pub x: u8,
+    pub a: Vec<u8>,
+    pub b: Vec<u8>,
+    pub m: M,
+    /// pending unifications the lax image is returned with
+    pub q: Vec<(usize, usize)>,
+}
+
+#[derive(Clone, Debug)]
+pub struct Fun {
+    pub obj: Vec<Vec<u8>>,
+    pub ops: Vec<OpImg>,
+}
+
+pub fn pairs_json(q: &[(usize, usize)]) -> Value {
+    json!(q.iter().map(|&(a, b)| vec![a, b]).collect::<Vec<_>>())
+}
+pub fn pairs_from_json(v: &Value) -> Option<Vec<(usize, usize)>> {
+    if v.is_null() {
+        return Some(vec![]);
+    }
+    v.as_array()?
+        .iter()
+        .map(|p| {
+            let p = p.as_array()?;
+            if p.len() != 2 {
+                return None;
+            }
+            Some((p[0].as_u64()? as usize, p[1].as_u64()? as usize))
+        })
+        .collect()
+}
+fn u8s(v: &Value) -> Option<Vec<u8>> {
+    v.as_array()?.iter().map(|x| x.as_u64().and_then(|y| if y < 256 { Some(y as u8) } else { None })).collect()
+}
+
+impl Fun {
+    pub fn json(&self) -> Value {
+        json!({
+            "obj": self.obj,
+            "ops": self.ops.iter().map(|o| json!({"x": o.x, "a": o.a, "b": o.b, "m": o.m.json(), "q": pairs_json(&o.q)})).collect::<Vec<_>>(),
+        })
+    }
+    pub fn from_json(v: &Value) -> Option<Fun> {
+        let obj = v.get("obj")?.as_array()?.iter().map(u8s).collect::<Option<Vec<_>>>()?;
+        let ops = v
+            .get("ops")?
+            .as_array()?
+            .iter()
+            .map(|o| Some(OpImg { x: o.get("x")?.as_u64()? as u8, a: u8s(o.get("a")?)?, b: u8s(o.get("b")?)?, m: M::from_json(o.get("m")?)?, q: pairs_from_json(o.get("q").unwrap_or(&Value::Null))? }))
+            .collect::<Option<Vec<_>>>()?;
+        Some(Fun { obj, ops })
+    }
+    /// F applied to a list of generating objects (concatenation of the images)
+    pub fn fobj(&self, ty: &[u8]) -> Vec<u8> {
+        ty.iter().flat_map(|&l| self.obj[l as usize].iter().cloned()).collect()
+    }
+    pub fn lookup(&self, x: u8, a: &[u8], b: &[u8]) -> Option<&OpImg> {
+        self.ops.iter().find(|o| o.x == x && o.a == a && o.b == b)
+    }
+    /// the image of an operation as a plain diagram (pending unifications of the image applied)
+    pub fn image(&self, x: u8, a: &[u8], b: &[u8]) -> Option<M> {
+        let o = self.lookup(x, a, b)?;
+        quotient(&o.m, &o.q).map(|r| r.0)
+    }
+    /// every table entry is a diagram of type F(a) -> F(b), and all labels are in the object table
+    pub fn well_typed(&self) -> bool {
+        let nl = self.obj.len();
+        // keys must be unique: the operation map is a function
+        for (i, o) in self.ops.iter().enumerate() {
+            if self.ops[..i].iter().any(|p| p.x == o.x && p.a == o.a && p.b == o.b) {
+                return false;
+            }
+        }
+        self.ops.iter().all(|o| {
+            o.a.iter().chain(o.b.iter()).all(|&l| (l as usize) < nl)
+                && o.m.valid()
+                && o.q.iter().all(|&(u, v)| u < o.m.w.len() && v < o.m.w.len())
+                && match quotient(&o.m, &o.q) {
+                    None => false,
+                    Some((m, _)) => m.source_type() == self.fobj(&o.a) && m.target_type() == self.fobj(&o.b),
+                }
+        })
+    }
+    /// the functor is defined on every generator occurring in f
+    pub fn covers(&self, f: &M) -> bool {
+        f.w.iter().all(|&l| (l as usize) < self.obj.len()) && sigs(&[f]).iter().all(|(x, a, b)| self.lookup(*x, a, b).is_some())
+    }
+}
+
+impl lf::Functor<u8, u8, u8, u8> for Fun {
+    fn map_object(&self, o: &u8) -> impl ExactSizeIterator<Item = u8> {
+        self.obj[*o as usize].clone().into_iter()
+    }
+    fn map_operation(&self, a: &u8, source: &[u8], target: &[u8]) -> LOH {
+        let o = self.lookup(*a, source, target).expect("table functor: operation signature not in table");
+        to_lax_q(&o.m, &o.q)
+    }
+    fn map_arrow(&self, f: &LOH) -> LOH {
+        lf::dyn_functor::define_map_arrow(self, f)
+    }
+}
+
+/// the same table as a strict functor, implemented without going through dyn_functor
+pub struct SFun(pub Fun);
+impl sfun::Functor<VecKind, u8, u8, u8, u8> for SFun {
+    fn map_object(&self, a: &SF<u8>) -> SemIC {
+        let mut sizes = vec![];
+        let mut vals = vec![];
+        for &l in a.0 .0.iter() {
+            sizes.push(self.0.obj[l as usize].len());
+            vals.extend(self.0.obj[l as usize].iter().cloned());
+        }
+        IndexedCoproduct::from_semifinite(SemifiniteFunction(VecArray(sizes)), SemifiniteFunction(VecArray(vals))).unwrap()
+    }
+    fn map_operations(&self, ops: Operations<VecKind, u8, u8>) -> SOH {
+        let mut acc = M::empty();
+        for (x, a, b) in ops.iter() {
+            acc = tensor(&acc, &self.0.image(*x, a, b).expect("table functor: operation signature not in table"));
+        }
+        acc.to_strict()
+    }
+    fn map_arrow(&self, f: &SOH) -> SOH {
+        sfun::define_map_arrow(self, f)
+    }
+}
+
+pub fn to_lax_q(m: &M, q: &[(usize, usize)]) -> LOH {
+    let mut l = m.to_lax();
+    for &(u, v) in q {
+        l.unify(lax::NodeId(u), lax::NodeId(v));
+    }
+    l
+}
+
+/// the generators (operation label with its source and target type) occurring in the diagrams
+pub fn sigs(ms: &[&M]) -> Vec<Sig> {
+    let mut out: Vec<Sig> = vec![];
+    for m in ms {
+        for e in 0..m.x.len() {
+            let s: Sig = (m.x[e], m.src[e].iter().map(|&i| m.w[i]).collect(), m.tgt[e].iter().map(|&i| m.w[i]).collect());
+            if !out.contains(&s) {
+                out.push(s);
+            }
+        }
+    }
+    out
+}
+
+/// read a lax result: indices in range, pending unifications applied by the reference quotient
+pub fn read_lax(r: &LOH) -> Result<M, String> {
+    if r.hypergraph.adjacency.len() != r.hypergraph.edges.len() {
+        return Err(format!("{} edge labels but {} incidence records", r.hypergraph.edges.len(), r.hypergraph.adjacency.len()));
+    }
+    if r.hypergraph.quotient.0.len() != r.hypergraph.quotient.1.len() {
+        return Err("pending unification lists of different length".into());
+    }
+    let (m, q) = M::from_lax(r);
+    if !m.valid() {
+        return Err(format!("node index out of range in {}", m.json()));
+    }
+    if q.iter().any(|&(u, v)| u >= m.w.len() || v >= m.w.len()) {
+        return Err("pending unification out of range".into());
+    }
+    match quotient(&m, &q) {
+        None => Err(format!("pending unifications identify nodes with different labels: {} / {:?}", m.json(), q)),
+        Some((mq, _)) => Ok(mq),
+    }
+}
+
+// ------------------------------------------------------------------------------------------------
+// the oracle: generator-wise substitution, from the statement
+// ------------------------------------------------------------------------------------------------
+/// returns the substituted diagram and, for every input node, the (quotiented) nodes replacing it
+pub fn subst_marked(f: &M, fun: &Fun) -> Option<(M, Vec<Vec<usize>>)> {
+    let n = f.w.len();
+    let mut big = M::empty();
+    let mut blocks: Vec<Vec<usize>> = vec![];
+    for i in 0..n {
+        let img = &fun.obj[f.w[i] as usize];
+        let mut b = vec![];
+        for &l in img {
+            b.push(big.w.len());
+            big.w.push(l);
+        }
+        blocks.push(b);
+    }
+    let expand = |l: &Vec<usize>| -> Vec<usize> {
+        let mut out = vec![];
+        for &i in l {
+            out.extend(blocks[i].iter().cloned());
+        }
+        out
+    };
+    big.s = expand(&f.s);
+    big.t = expand(&f.t);
+    let mut pairs = vec![];
+    for e in 0..f.x.len() {
+        let a: Vec<u8> = f.src[e].iter().map(|&i| f.w[i]).collect();
+        let b: Vec<u8> = f.tgt[e].iter().map(|&i| f.w[i]).collect();
+        let img = fun.image(f.x[e], &a, &b)?;
+        let base = big.w.len();
+        big.w.extend(img.w.iter().cloned());
+        for k in 0..img.x.len() {
+            big.x.push(img.x[k]);
+            big.src.push(img.src[k].iter().map(|&v| v + base).collect());
+            big.tgt.push(img.tgt[k].iter().map(|&v| v + base).collect());
+        }
+        let es = expand(&f.src[e]);
+        let et = expand(&f.tgt[e]);
+        if es.len() != img.s.len() || et.len() != img.t.len() {
+            return None;
+        }
+        for j in 0..es.len() {
+            pairs.push((es[j], base + img.s[j]));
+        }
+        for j in 0..et.len() {
+            pairs.push((et[j], base + img.t[j]));
+        }
+    }
+    let (m, q) = quotient(&big, &pairs)?;
+    let marked = blocks.iter().map(|b| b.iter().map(|&v| q[v]).collect()).collect();
+    Some((m, marked))
+}
+
+pub fn subst(f: &M, fun: &Fun) -> Option<M> {
+    subst_marked(f, fun).map(|r| r.0)
+}
+
+// ------------------------------------------------------------------------------------------------
+// decoding
+// ------------------------------------------------------------------------------------------------
+pub struct Input {
+    /// the diagram as given (before its own pending unifications)
+    pub f: M,
+    pub fq: Vec<(usize, usize)>,
+    /// the diagram the lax input denotes
+    pub fe: M,
+    pub fun: Fun,
+}
+
+pub fn decode(input: &Value) -> Option<Input> {
+    let f = M::from_json(input.get("f")?)?;
+    if !f.valid() {
+        return None;
+    }
+    let fq = pairs_from_json(input.get("fq").unwrap_or(&Value::Null))?;
+    if fq.iter().any(|&(u, v)| u >= f.w.len() || v >= f.w.len()) {
+        return None;
+    }
+    let fe = quotient(&f, &fq)?.0;
+    let fun = Fun::from_json(input.get("F")?)?;
+    if !fun.well_typed() || !fun.covers(&fe) {
+        return None;
+    }
+    Some(Input { f, fq, fe, fun })
+}
+
+fn type_json(m: &M) -> Value {
+    json!({"source": m.source_type(), "target": m.target_type()})
+}
+
+/// compare a library image with the oracle: type clause, then isomorphism clause
+fn judge(ctx: &mut Ctx, check: &str, input: &Value, fe: &M, fun: &Fun, got: &M) {
+    let (fa, fb) = (fun.fobj(&fe.source_type()), fun.fobj(&fe.target_type()));
+    if got.source_type() != fa || got.target_type() != fb {
+        ctx.fail(check, "C12.type", input, type_json(got), json!({"source": fa, "target": fb}));
+    }
+    match subst(fe, fun) {
+        None => ctx.fail(check, "C12.oracle-defined", input, json!("oracle undefined on a validated input"), json!("defined")),
+        Some(e) => {
+            if !is_iso(got, &e) {
+                ctx.fail(check, "C12.substitution", input, got.json(), e.json());
+            }
+        }
+    }
+}
+
+// ------------------------------------------------------------------------------------------------
+// checks
+// ------------------------------------------------------------------------------------------------
+/// input: {"f": model, "fq": pending pairs (optional), "F": functor}
+/// lax functor with map_arrow defined through dyn_functor::define_map_arrow
+fn chk_map_arrow_lax(ctx: &mut Ctx, input: &Value) {
+    let Some(i) = decode(input) else { return };
+    ctx.case("map_arrow_lax", input, i.fe.nontrivial());
+    let l = to_lax_q(&i.f, &i.fq);
+    match guard(|| lf::dyn_functor::define_map_arrow(&i.fun, &l)) {
+        Err(p) => ctx.fail("map_arrow_lax", "C12.no-panic", input, json!(format!("panic: {}", p)), json!("a diagram")),
+        Ok(r) => match read_lax(&r) {
+            Err(why) => ctx.fail("map_arrow_lax", "C12.result-wf", input, json!(why), json!("well-formed diagram")),
+            Ok(m) => judge(ctx, "map_arrow_lax", input, &i.fe, &i.fun, &m),
+        },
+    }
+}
+
+/// input as above (fq applied before conversion); strict functor trait + define_map_arrow
+fn chk_map_arrow_strict(ctx: &mut Ctx, input: &Value) {
+    let Some(i) = decode(input) else { return };
+    ctx.case("map_arrow_strict", input, i.fe.nontrivial());
+    let sf = i.fe.to_strict();
+    let sfn = SFun(i.fun.clone());
+    match guard(|| sfun::define_map_arrow(&sfn, &sf)) {
+        Err(p) => ctx.fail("map_arrow_strict", "C12.no-panic", input, json!(format!("panic: {}", p)), json!("a diagram")),
+        Ok(r) => match strict_wf(&r) {
+            Err(why) => ctx.fail("map_arrow_strict", "C12.result-wf", input, json!(why), json!("well-formed diagram")),
+            Ok(m) => judge(ctx, "map_arrow_strict", input, &i.fe, &i.fun, &m),
+        },
+    }
+}
+
+fn sem_ic(ls: &[Vec<u8>]) -> SemIC {
+    let sizes: Vec<usize> = ls.iter().map(|l| l.len()).collect();
+    let vals: Vec<u8> = ls.iter().flatten().cloned().collect();
+    IndexedCoproduct::from_semifinite(SemifiniteFunction(VecArray(sizes)), SemifiniteFunction(VecArray(vals))).unwrap()
+}
+
+/// segments of a segmented array of labels, read from raw fields
+fn sem_segments(c: &SemIC) -> Result<Vec<Vec<u8>>, String> {
+    let sizes = &c.sources.table.0;
+    let vals = &c.values.0 .0;
+    let sum: usize = sizes.iter().sum();
+    if c.sources.target != sum + 1 {
+        return Err(format!("sources.target {} != sum {} + 1", c.sources.target, sum));
+    }
+    if sum != vals.len() {
+        return Err(format!("sum of sizes {} != number of values {}", sum, vals.len()));
+    }
+    let mut out = vec![];
+    let mut p = 0;
+    for &k in sizes {
+        out.push(vals[p..p + k].to_vec());
+        p += k;
+    }
+    Ok(out)
+}
+
+/// input as above.  The building blocks: generators of a diagram (to_operations), expansion of a
+/// node list through the object map (map_half_spider), object map and tensored operation map of
+/// the dyn_functor adapter.
+fn chk_pieces(ctx: &mut Ctx, input: &Value) {
+    let Some(i) = decode(input) else { return };
+    ctx.case("pieces", input, i.fe.nontrivial());
+    let (f, fun) = (&i.fe, &i.fun);
+    let sf = f.to_strict();
+    let src_ty: Vec<Vec<u8>> = f.src.iter().map(|l| l.iter().map(|&v| f.w[v]).collect()).collect();
+    let tgt_ty: Vec<Vec<u8>> = f.tgt.iter().map(|l| l.iter().map(|&v| f.w[v]).collect()).collect();
+
+    // generators of the diagram
+    match guard(|| hooks::to_operations(&sf)) {
+        Err(p) => ctx.fail("pieces", "C12.no-panic", input, json!(format!("to_operations panic: {}", p)), json!("operations")),
+        Ok(ops) => {
+            let got = (ops.x.0 .0.clone(), sem_segments(&ops.a), sem_segments(&ops.b));
+            let exp = (f.x.clone(), Ok(src_ty.clone()), Ok(tgt_ty.clone()));
+            if got != exp {
+                ctx.fail("pieces", "C12.to-operations", input, json!(format!("{:?}", got)), json!(format!("{:?}", exp)));
+            }
+        }
+    }
+
+    // object map of the adapter
+    let dynf = lf::dyn_functor::to_dyn_functor(fun.clone());
+    let blocks: Vec<Vec<u8>> = f.w.iter().map(|&l| fun.obj[l as usize].clone()).collect();
+    let w = SemifiniteFunction::<VecKind, u8>(VecArray(f.w.clone()));
+    let fw = match guard(|| sfun::Functor::<VecKind, u8, u8, u8, u8>::map_object(&dynf, &w)) {
+        Err(p) => {
+            ctx.fail("pieces", "C12.no-panic", input, json!(format!("map_object panic: {}", p)), json!("segmented array"));
+            None
+        }
+        Ok(c) => {
+            let got = sem_segments(&c);
+            if got != Ok(blocks.clone()) {
+                ctx.fail("pieces", "C12.map-object", input, json!(format!("{:?}", got)), json!(blocks));
+            }
+            Some(c)
+        }
+    };
+    let _ = fw;
+
+    // expansion of node lists through the object map (always fed with the correct object map)
+    let fw = sem_ic(&blocks);
+    let total: usize = blocks.iter().map(|b| b.len()).sum();
+    let mut off = vec![0usize; f.w.len()];
+    let mut acc = 0;
+    for k in 0..f.w.len() {
+        off[k] = acc;
+        acc += blocks[k].len();
+    }
+    let lists: Vec<Vec<usize>> = vec![f.s.clone(), f.t.clone(), f.src.iter().flatten().cloned().collect(), f.tgt.iter().flatten().cloned().collect(), (0..f.w.len()).rev().collect()];
+    for l in lists {
+        let exp: Vec<usize> = l.iter().flat_map(|&v| (off[v]..off[v] + blocks[v].len())).collect();
+        let ff = FiniteFunction::<VecKind>::new(VecArray(l.clone()), f.w.len()).unwrap();
+        match guard(|| hooks::map_half_spider(&fw, &ff)) {
+            Err(p) => ctx.fail("pieces", "C12.no-panic", input, json!(format!("map_half_spider({:?}) panic: {}", l, p)), json!(exp)),
+            Ok(r) => {
+                if r.table.0 != exp || r.target != total {
+                    ctx.fail("pieces", "C12.expand-list", input, json!({"list": l, "table": r.table.0, "target": r.target}), json!({"table": exp, "target": total}));
+                }
+            }
+        }
+    }
+
+    // tensored operation map of the adapter
+    let ops = Operations::new(SemifiniteFunction(VecArray(f.x.clone())), sem_ic(&src_ty), sem_ic(&tgt_ty)).unwrap();
+    let mut exp = M::empty();
+    for e in 0..f.x.len() {
+        exp = tensor(&exp, &fun.image(f.x[e], &src_ty[e], &tgt_ty[e]).unwrap());
+    }
+    match guard(|| sfun::Functor::<VecKind, u8, u8, u8, u8>::map_operations(&dynf, ops)) {
+        Err(p) => ctx.fail("pieces", "C12.no-panic", input, json!(format!("map_operations panic: {}", p)), exp.json()),
+        Ok(r) => match strict_wf(&r) {
+            Err(why) => ctx.fail("pieces", "C12.result-wf", input, json!(why), exp.json()),
+            Ok(m) => {
+                if !is_iso(&m, &exp) {
+                    ctx.fail("pieces", "C12.map-operations", input, m.json(), exp.json());
+                }
+            }
+        },
+    }
+}
+
+/// input: {"f": model, "fq": pending pairs}.  The identity functors of the library (strict and
+/// lax) and the identity table functor return a diagram isomorphic to the argument.
+fn chk_identity(ctx: &mut Ctx, input: &Value) {
+    let Some(f) = input.get("f").and_then(M::from_json) else { return };
+    if !f.valid() {
+        return;
+    }
+    let Some(fq) = pairs_from_json(input.get("fq").unwrap_or(&Value::Null)) else { return };
+    if fq.iter().any(|&(u, v)| u >= f.w.len() || v >= f.w.len()) {
+        return;
+    }
+    let Some((fe, _)) = quotient(&f, &fq) else { return };
+    ctx.case("identity", input, fe.nontrivial());
+    let sf = fe.to_strict();
+    match guard(|| <sfun::identity::Identity as sfun::Functor<VecKind, u8, u8, u8, u8>>::map_arrow(&sfun::identity::Identity, &sf)) {
+        Err(p) => ctx.fail("identity", "C12.no-panic", input, json!(format!("strict Identity panic: {}", p)), fe.json()),
+        Ok(r) => match strict_wf(&r) {
+            Err(why) => ctx.fail("identity", "C12.result-wf", input, json!(why), fe.json()),
+            Ok(m) => {
+                if !is_iso(&m, &fe) {
+                    ctx.fail("identity", "C12.identity-functor-strict", input, m.json(), fe.json());
+                }
+            }
+        },
+    }
+    let l = to_lax_q(&f, &fq);
+    match guard(|| <lf::dyn_functor::Identity as lf::Functor<u8, u8, u8, u8>>::map_arrow(&lf::dyn_functor::Identity, &l)) {
+        Err(p) => ctx.fail("identity", "C12.no-panic", input, json!(format!("lax Identity panic: {}", p)), fe.json()),
+        Ok(r) => match read_lax(&r) {
+            Err(why) => ctx.fail("identity", "C12.result-wf", input, json!(why), fe.json()),
+            Ok(m) => {
+                if !is_iso(&m, &fe) {
+                    ctx.fail("identity", "C12.identity-functor-lax", input, m.json(), fe.json());
+                }
+            }
+        },
+    }
+    // the identity as a table: A |-> [A], x : a -> b |-> the single operation x : a -> b
+    let nl = fe.w.iter().map(|&l| l as usize + 1).max().unwrap_or(0);
+    let fun = Fun { obj: (0..nl).map(|l| vec![l as u8]).collect(), ops: sigs(&[&fe]).into_iter().map(|(x, a, b)| OpImg { m: singleton(x, &a, &b), x, a, b, q: vec![] }).collect() };
+    match guard(|| lf::dyn_functor::define_map_arrow(&fun, &l)) {
+        Err(p) => ctx.fail("identity", "C12.no-panic", input, json!(format!("identity table functor panic: {}", p)), fe.json()),
+        Ok(r) => match read_lax(&r) {
+            Err(why) => ctx.fail("identity", "C12.result-wf", input, json!(why), fe.json()),
+            Ok(m) => {
+                if !is_iso(&m, &fe) {
+                    ctx.fail("identity", "C12.identity-functor-table", input, m.json(), fe.json());
+                }
+            }
+        },
+    }
+}
+
+/// input: {"f": model, "g": model, "A": labels, "B": labels, "F": functor}
+/// F(id_A) = id_F(A), F(twist(A,B)) = twist(F(A),F(B)), F(f†) = F(f)†, F(f ● g) = F(f) ● F(g) and,
+/// when f ; g is defined, F(f ; g) = F(f) ; F(g), all up to isomorphism.  The categorical
+/// operations on both sides are the reference ones; only F is the library's.
+fn chk_functorial(ctx: &mut Ctx, input: &Value) {
+    let (Some(f), Some(g)) = (input.get("f").and_then(M::from_json), input.get("g").and_then(M::from_json)) else { return };
+    let (Some(a), Some(b)) = (input.get("A").and_then(u8s), input.get("B").and_then(u8s)) else { return };
+    let Some(fun) = input.get("F").and_then(Fun::from_json) else { return };
+    if !f.valid() || !g.valid() || !fun.well_typed() || !fun.covers(&f) || !fun.covers(&g) || a.iter().chain(b.iter()).any(|&l| l as usize >= fun.obj.len()) {
+        return;
+    }
+    ctx.case("functorial", input, f.nontrivial() && g.nontrivial());
+    let apply = |ctx: &mut Ctx, what: &str, m: &M| -> Option<M> {
+        let l = m.to_lax();
+        match guard(|| lf::Functor::map_arrow(&fun, &l)) {
+            Err(p) => {
+                ctx.fail("functorial", "C12.no-panic", input, json!(format!("F({}) panic: {}", what, p)), json!("a diagram"));
+                None
+            }
+            Ok(r) => match read_lax(&r) {
+                Err(why) => {
+                    ctx.fail("functorial", "C12.result-wf", input, json!(format!("F({}): {}", what, why)), json!("well-formed diagram"));
+                    None
+                }
+                Ok(m) => Some(m),
+            },
+        }
+    };
+    let (fa, fb) = (fun.fobj(&a), fun.fobj(&b));
+    if let Some(r) = apply(ctx, "id_A", &identity(&a)) {
+        if !is_iso(&r, &identity(&fa)) {
+            ctx.fail("functorial", "C12.preserves-identity", input, r.json(), identity(&fa).json());
+        }
+    }
+    if let Some(r) = apply(ctx, "twist(A,B)", &twist(&a, &b)) {
+        if !is_iso(&r, &twist(&fa, &fb)) {
+            ctx.fail("functorial", "C12.preserves-symmetry", input, r.json(), twist(&fa, &fb).json());
+        }
+    }
+    let (Some(ff), Some(fg)) = (apply(ctx, "f", &f), apply(ctx, "g", &g)) else { return };
+    if let Some(r) = apply(ctx, "dagger f", &dagger(&f)) {
+        if !is_iso(&r, &dagger(&ff)) {
+            ctx.fail("functorial", "C12.preserves-dagger", input, r.json(), dagger(&ff).json());
+        }
+    }
+    if let Some(r) = apply(ctx, "f tensor g", &tensor(&f, &g)) {
+        if !is_iso(&r, &tensor(&ff, &fg)) {
+            ctx.fail("functorial", "C12.preserves-tensor", input, r.json(), tensor(&ff, &fg).json());
+        }
+    }
+    if let Some(h) = compose(&f, &g) {
+        if let Some(r) = apply(ctx, "f ; g", &h) {
+            match compose(&ff, &fg) {
+                None => ctx.fail("functorial", "C12.preserves-composition", input, json!({"F(f)": type_json(&ff), "F(g)": type_json(&fg)}), json!("F(f) ; F(g) defined")),
+                Some(e) => {
+                    if !is_iso(&r, &e) {
+                        ctx.fail("functorial", "C12.preserves-composition", input, r.json(), e.json());
+                    }
+                }
+            }
+        }
+    }
+}
+
+// ------------------------------------------------------------------------------------------------
+// generators
+// ------------------------------------------------------------------------------------------------
+pub const NLABELS: usize = 3;
+pub const GEN_SMALL: Bounds = Bounds { nodes: 3, edges: 2, arity: 2, iface: 3, labels: 3 };
+pub const GEN_MEDIUM: Bounds = Bounds { nodes: 5, edges: 3, arity: 3, iface: 4, labels: 3 };
+
+/// object map.  mode 0: lengths 0..2 mixed (rarely 3); 1: all length 1 (relabelling); 2: all empty;
+/// 3: all length 2; 4: identity; 5: lengths 0/1/2 assigned to labels 0/1/2 in a random order
+pub fn gen_obj(r: &mut Rng, mode: usize) -> Vec<Vec<u8>> {
+    let lab = |r: &mut Rng| r.below(NLABELS) as u8;
+    if mode == 5 {
+        let rot = r.below(3);
+        return (0..NLABELS).map(|l| (0..(l + rot) % 3).map(|_| lab(r)).collect()).collect();
+    }
+    (0..NLABELS)
+        .map(|l| match mode {
+            1 => vec![lab(r)],
+            2 => vec![],
+            3 => vec![lab(r), lab(r)],
+            4 => vec![l as u8],
+            _ => {
+                let k = if r.chance(1, 10) { 3 } else { r.below(3) };
+                (0..k).map(|_| lab(r)).collect()
+            }
+        })
+        .collect()
+}
+
+fn pick(r: &mut Rng, m: &mut M, l: u8, fresh_num: usize, fresh_den: usize) -> usize {
+    let cands: Vec<usize> = (0..m.w.len()).filter(|&i| m.w[i] == l).collect();
+    if cands.is_empty() || r.chance(fresh_num, fresh_den) {
+        m.w.push(l);
+        m.w.len() - 1
+    } else {
+        cands[r.below(cands.len())]
+    }
+}
+
+/// number of image kinds of `gen_image`
+pub const KINDS: usize = 7;
+
+/// an image of type fa -> fb.
+/// 0 single operation; 1 arbitrary diagram (cycles, sharing, isolated nodes); 2 spider-only;
+/// 3 minimal (identity wires when fa == fb, otherwise discard/create; the empty diagram when both
+/// types are empty); 4 two operations joined by pending unifications; 5 everything of one label
+/// merged into one node; 6 sequential composite with a zero-arity side operation
+pub fn gen_image(r: &mut Rng, x: u8, fa: &[u8], fb: &[u8], kind: usize) -> (M, Vec<(usize, usize)>) {
+    let y = x.wrapping_add(20);
+    match kind {
+        0 => (singleton(y, fa, fb), vec![]),
+        1 | 2 => {
+            let mut m = random_model(r, Bounds { nodes: 3, edges: if kind == 1 { 2 } else { 0 }, arity: 2, iface: 0, labels: NLABELS });
+            m.s = vec![];
+            m.t = vec![];
+            let s: Vec<usize> = fa.iter().map(|&l| pick(r, &mut m, l, 1, 3)).collect();
+            let t: Vec<usize> = fb.iter().map(|&l| pick(r, &mut m, l, 1, 3)).collect();
+            m.s = s;
+            m.t = t;
+            (m, vec![])
+        }
+        3 => {
+            if fa == fb && r.chance(2, 3) {
+                (identity(fa), vec![])
+            } else {
+                let (na, nb) = (fa.len(), fb.len());
+                (M { w: [fa.to_vec(), fb.to_vec()].concat(), x: vec![], src: vec![], tgt: vec![], s: (0..na).collect(), t: (na..na + nb).collect() }, vec![])
+            }
+        }
+        4 => {
+            let mid: Vec<u8> = match r.below(4) {
+                0 => fb.to_vec(),
+                1 => fa.to_vec(),
+                2 => vec![],
+                _ => vec![r.below(NLABELS) as u8],
+            };
+            let g1 = singleton(y, fa, &mid);
+            let g2 = singleton(y.wrapping_add(1), &mid, fb);
+            let n1 = g1.w.len();
+            let mut m = tensor(&g1, &g2);
+            m.s = g1.s.clone();
+            m.t = g2.t.iter().map(|&v| v + n1).collect();
+            let mut q: Vec<(usize, usize)> = g1.t.iter().zip(g2.s.iter()).map(|(&u, &v)| (u, v + n1)).collect();
+            if r.chance(1, 2) {
+                q.reverse();
+            }
+            if !q.is_empty() && r.chance(1, 3) {
+                let p = q[0];
+                q.push((p.1, p.0)); // redundant pair
+            }
+            (m, q)
+        }
+        5 => {
+            let mut m = M::empty();
+            let s: Vec<usize> = fa.iter().map(|&l| pick(r, &mut m, l, 0, 1)).collect();
+            let t: Vec<usize> = fb.iter().map(|&l| pick(r, &mut m, l, 0, 1)).collect();
+            m.s = s;
+            m.t = t;
+            (m, vec![])
+        }
+        _ => {
+            let g = compose(&singleton(y, fa, fb), &singleton(y.wrapping_add(1), fb, fb)).unwrap();
+            (tensor(&g, &singleton(y.wrapping_add(2), &[], &[])), vec![])
+        }
+    }
+}
+
+/// a functor defined on all generators of the given diagrams
+pub fn gen_fun(r: &mut Rng, ms: &[&M], obj_mode: usize, kind: Option<usize>) -> Fun {
+    let obj = gen_obj(r, obj_mode);
+    let mut fun = Fun { obj, ops: vec![] };
+    for (x, a, b) in sigs(ms) {
+        let (fa, fb) = (fun.fobj(&a), fun.fobj(&b));
+        let k = kind.unwrap_or_else(|| r.below(KINDS));
+        let (m, q) = gen_image(r, x, &fa, &fb, k);
+        fun.ops.push(OpImg { x, a, b, m, q });
+    }
+    fun
+}
+
+/// the deterministic family used with the exhaustive enumeration: F(0) in {[], [0], [1,0]},
+/// F(1) in {[], [1], [0,0]}, F(2) = [2]; image kind 0 single operation, 1 wires/discard, 2 composite
+pub fn family_fun(ms: &[&M], i0: usize, i1: usize, kind: usize) -> Fun {
+    let o0: [Vec<u8>; 3] = [vec![], vec![0], vec![1, 0]];
+    let o1: [Vec<u8>; 3] = [vec![], vec![1], vec![0, 0]];
+    let mut fun = Fun { obj: vec![o0[i0].clone(), o1[i1].clone(), vec![2]], ops: vec![] };
+    for (x, a, b) in sigs(ms) {
+        let (fa, fb) = (fun.fobj(&a), fun.fobj(&b));
+        let m = match kind {
+            0 => singleton(x + 20, &fa, &fb),
+            1 => {
+                if fa == fb {
+                    identity(&fa)
+                } else {
+                    M { w: [fa.clone(), fb.clone()].concat(), x: vec![], src: vec![], tgt: vec![], s: (0..fa.len()).collect(), t: (fa.len()..fa.len() + fb.len()).collect() }
+                }
+            }
+            _ => compose(&singleton(x + 20, &fa, &fb), &singleton(x + 21, &fb, &fb)).unwrap(),
+        };
+        fun.ops.push(OpImg { x, a, b, m, q: vec![] });
+    }
+    fun
+}
+
+/// all lists over 0..n of length <= maxlen
+pub fn lists(n: usize, maxlen: usize) -> Vec<Vec<usize>> {
+    let mut out: Vec<Vec<usize>> = vec![vec![]];
+    let mut layer: Vec<Vec<usize>> = vec![vec![]];
+    for _ in 0..maxlen {
+        let mut next = vec![];
+        for l in &layer {
+            for v in 0..n {
+                let mut l2 = l.clone();
+                l2.push(v);
+                next.push(l2);
+            }
+        }
+        out.extend(next.iter().cloned());
+        layer = next;
+    }
+    out
+}
+
+/// every diagram with <= nmax nodes labelled 0/1, either no edge or one edge (label 10) with
+/// source/target lists of length <= amax, or (if two) two edges (labels 10,10 and 10,11) with lists
+/// of length <= 1, and interfaces of length <= imax
+pub fn enum_models(nmax: usize, amax: usize, imax: usize, two: bool) -> Vec<M> {
+    let mut out = vec![];
+    for n in 0..=nmax {
+        for code in 0..(1usize << n) {
+            let w: Vec<u8> = (0..n).map(|i| ((code >> i) & 1) as u8).collect();
+            let mut edge_cfgs: Vec<(Vec<u8>, Vec<Vec<usize>>, Vec<Vec<usize>>)> = vec![(vec![], vec![], vec![])];
+            let la = lists(n, amax);
+            for s in &la {
+                for t in &la {
+                    edge_cfgs.push((vec![10], vec![s.clone()], vec![t.clone()]));
+                }
+            }
+            if two {
+                let l1 = lists(n, 1);
+                for s0 in &l1 {
+                    for t0 in &l1 {
+                        for s1 in &l1 {
+                            for t1 in &l1 {
+                                for x1 in [10u8, 11] {
+                                    edge_cfgs.push((vec![10, x1], vec![s0.clone(), s1.clone()], vec![t0.clone(), t1.clone()]));
+                                }
+                            }
+                        }
+                    }
+                }
+            }
+            let li = lists(n, imax);
+            for (x, src, tgt) in &edge_cfgs {
+                for s in &li {
+                    for t in &li {
+                        out.push(M { w: w.clone(), x: x.clone(), src: src.clone(), tgt: tgt.clone(), s: s.clone(), t: t.clone() });
+                    }
+                }
+            }
+        }
+    }
+    out
+}
+
+/// 2^k nodes merged pairwise in binomial-tree order by 2^k - 1 edges  x : [l] -> [l]
+pub fn binomial_chain(k: usize, label: u8) -> M {
+    let n = 1usize << k;
+    let mut m = M { w: vec![label; n], x: vec![], src: vec![], tgt: vec![], s: vec![0], t: vec![n - 1] };
+    for lvl in 0..k {
+        let step = 2usize << lvl;
+        let mut i = 0;
+        while i < n {
+            m.x.push(10);
+            // alternate direction so that both "parent under child" and the converse occur
+            if (i / step) % 2 == 0 {
+                m.src.push(vec![i]);
+                m.tgt.push(vec![i + (1 << lvl)]);
+            } else {
+                m.src.push(vec![i + (1 << lvl)]);
+                m.tgt.push(vec![i]);
+            }
+            i += step;
+        }
+    }
+    m
+}
+
+/// fixed corner diagrams for the "quantified over" list (on top of model::corner_models)
+pub fn corner_diagrams() -> Vec<M> {
+    let mut v = corner_models();
+    v.extend(vec![
+        // operation-free, non-identity wiring: permutation + copy + discard + isolated node
+        M { w: vec![0, 1, 0, 2], x: vec![], src: vec![], tgt: vec![], s: vec![2, 0, 1, 0], t: vec![1, 1, 2] },
+        // pure permutation
+        M { w: vec![0, 1, 2], x: vec![], src: vec![], tgt: vec![], s: vec![0, 1, 2], t: vec![2, 0, 1] },
+        // multiplicity larger than the number of nodes and operations
+        M { w: vec![0], x: vec![10], src: vec![vec![0; 5]], tgt: vec![vec![0; 4]], s: vec![0, 0, 0], t: vec![0, 0] },
+        M { w: vec![1, 0], x: vec![10, 10], src: vec![vec![0, 1, 0, 1, 0], vec![0, 1, 0, 1, 0]], tgt: vec![vec![1, 1, 1], vec![1, 1, 1]], s: vec![1, 0, 1], t: vec![0, 0] },
+        // zero-arity operations next to ordinary ones, first / middle / last
+        M { w: vec![0, 1], x: vec![10, 11, 10, 11], src: vec![vec![], vec![0], vec![], vec![]], tgt: vec![vec![], vec![1], vec![], vec![]], s: vec![0], t: vec![1] },
+        M { w: vec![0, 1], x: vec![11, 10, 10], src: vec![vec![0], vec![], vec![1]], tgt: vec![vec![1], vec![], vec![]], s: vec![0], t: vec![1] },
+        // operation with inputs only / outputs only (source- or target-less), isolated node of every label
+        M { w: vec![0, 1, 2, 0, 1, 2], x: vec![10, 11], src: vec![vec![0, 1, 2], vec![]], tgt: vec![vec![], vec![2, 1, 0]], s: vec![], t: vec![] },
+        // cyclic: feedback loop through two operations and the boundary
+        M { w: vec![0, 1, 0], x: vec![10, 11, 10], src: vec![vec![0], vec![1], vec![2]], tgt: vec![vec![1], vec![0], vec![2]], s: vec![0, 2], t: vec![0, 1] },
+        // non-monogamous: a node consumed by three operations and produced by two
+        M { w: vec![1, 1, 0], x: vec![10, 10, 11, 11], src: vec![vec![0], vec![0], vec![0, 0], vec![2]], tgt: vec![vec![1], vec![1], vec![2], vec![0]], s: vec![], t: vec![0, 0] },
+        // same operation label used at different types
+        M { w: vec![0, 1, 2], x: vec![10, 10, 10], src: vec![vec![0], vec![1], vec![0, 1]], tgt: vec![vec![1], vec![2], vec![]], s: vec![0], t: vec![2] },
+        // interfaces only on nodes whose label may be erased by the functor
+        M { w: vec![0, 0, 1], x: vec![10], src: vec![vec![0, 2]], tgt: vec![vec![2, 1]], s: vec![0, 1], t: vec![1, 0] },
+        // only isolated nodes
+        M { w: vec![0, 1, 2, 0], x: vec![], src: vec![], tgt: vec![], s: vec![], t: vec![] },
+        // nodes, no interface, one closed loop
+        M { w: vec![2], x: vec![11], src: vec![vec![0]], tgt: vec![vec![0]], s: vec![], t: vec![] },
+    ]);
+    v
+}
+
+/// fixed object maps used with the corner diagrams
+pub fn corner_objs() -> Vec<Vec<Vec<u8>>> {
+    vec![
+        vec![vec![0], vec![1], vec![2]],          // identity
+        vec![vec![1], vec![1], vec![1]],          // collapse all labels
+        vec![vec![], vec![], vec![]],             // erase everything
+        vec![vec![], vec![1], vec![0, 0]],        // 0 / 1 / 2 mixed
+        vec![vec![1, 0], vec![], vec![2]],        // 2 / 0 / 1
+        vec![vec![0, 0], vec![1, 0], vec![2, 2]], // all doubled
+        vec![vec![0, 1, 2], vec![2], vec![]],     // 3 / 1 / 0
+        vec![vec![2], vec![0], vec![1]],          // permutation of labels
+    ]
+}
+
+pub fn fun_with_obj(r: &mut Rng, ms: &[&M], obj: Vec<Vec<u8>>, kind: Option<usize>) -> Fun {
+    let mut fun = Fun { obj, ops: vec![] };
+    for (x, a, b) in sigs(ms) {
+        let (fa, fb) = (fun.fobj(&a), fun.fobj(&b));
+        let k = kind.unwrap_or_else(|| r.below(KINDS));
+        let (m, q) = gen_image(r, x, &fa, &fb, k);
+        fun.ops.push(OpImg { x, a, b, m, q });
+    }
+    fun
+}
+
+/// pending unifications between nodes of equal label (possibly redundant / reflexive)
+pub fn gen_pending(r: &mut Rng, f: &M, max: usize) -> Vec<(usize, usize)> {
+    let n = f.w.len();
+    if n == 0 {
+        return vec![];
+    }
+    let k = r.range(0, max);
+    let mut q = vec![];
+    for _ in 0..k {
+        let u = r.below(n);
+        let cands: Vec<usize> = (0..n).filter(|&v| f.w[v] == f.w[u]).collect();
+        q.push((u, cands[r.below(cands.len())]));
+    }
+    q
+}
+
+fn all3(ctx: &mut Ctx, input: &Value) {
+    chk_map_arrow_lax(ctx, input);
+    chk_map_arrow_strict(ctx, input);
+    chk_pieces(ctx, input);
+}
+
+pub fn run(ctx: &mut Ctx) {
+    if let Some((name, input)) = ctx.replay.clone() {
+        for (n, c) in CHECKS {
+            if *n == name {
+                c(ctx, &input);
+            }
+        }
+        return;
+    }
+    let thorough = ctx.thorough();
+
+    // (a) corner diagrams x corner object maps x every image kind
+    let corners = corner_diagrams();
+    let objs = corner_objs();
+    for f in &corners {
+        chk_identity(ctx, &json!({"f": f.json(), "fq": []}));
+        for obj in &objs {
+            for kind in 0..KINDS {
+                let fun = fun_with_obj(&mut ctx.rng, &[f], obj.clone(), Some(kind));
+                all3(ctx, &json!({"f": f.json(), "fq": [], "F": fun.json()}));
+            }
+        }
+    }
+    // long chains: 64 = 32+32 nodes merged in binomial-tree order; wires-only images collapse the
+    // whole diagram into |F(A)| nodes, single-operation images keep a 63-operation tree
+    for k in [1usize, 3, 6] {
+        let f = binomial_chain(k, 0);
+        chk_identity(ctx, &json!({"f": f.json(), "fq": []}));
+        for obj in [vec![vec![0u8], vec![1], vec![2]], vec![vec![1, 0], vec![1], vec![2]], vec![vec![], vec![1], vec![2]], vec![vec![0, 0, 0], vec![1], vec![2]]] {
+            for kind in [0usize, 3, 5] {
+                let mut fun = Fun { obj: obj.clone(), ops: vec![] };
+                let fa = fun.fobj(&[0]);
+                let m = match kind {
+                    0 => singleton(30, &fa, &fa),
+                    3 => identity(&fa),
+                    _ => gen_image(&mut ctx.rng, 10, &fa, &fa, 5).0,
+                };
+                fun.ops.push(OpImg { x: 10, a: vec![0], b: vec![0], m, q: vec![] });
+                let input = json!({"f": f.json(), "fq": [], "F": fun.json()});
+                chk_map_arrow_lax(ctx, &input);
+                chk_map_arrow_strict(ctx, &input);
+            }
+        }
+    }
+    // a diagram given with a deep chain of pending unifications (lax input of define_map_arrow)
+    {
+        let n = 64usize;
+        let f = M { w: vec![0; n], x: vec![10], src: vec![vec![0]], tgt: vec![vec![n - 1]], s: vec![5], t: vec![40, 7] };
+        let c = binomial_chain(6, 0);
+        let fq: Vec<(usize, usize)> = (0..c.x.len()).map(|e| (c.src[e][0], c.tgt[e][0])).collect();
+        let fun = Fun { obj: vec![vec![1, 0]], ops: vec![OpImg { x: 10, a: vec![0], b: vec![0], m: singleton(30, &[1, 0], &[1, 0]), q: vec![] }] };
+        let input = json!({"f": f.json(), "fq": pairs_json(&fq), "F": fun.json()});
+        chk_map_arrow_lax(ctx, &input);
+        chk_identity(ctx, &json!({"f": f.json(), "fq": pairs_json(&fq)}));
+    }
+
+    // (b) exhaustive small diagrams x the 27 functors of the deterministic family
+    let small = if thorough { enum_models(2, 2, 2, false) } else { enum_models(2, 2, 1, false) };
+    let small2 = if thorough { enum_models(2, 0, 1, true) } else { vec![] };
+    let mut n_exh = 0usize;
+    for f in small.iter().chain(small2.iter()) {
+        chk_identity(ctx, &json!({"f": f.json(), "fq": []}));
+        for i0 in 0..3 {
+            for i1 in 0..3 {
+                for kind in 0..3 {
+                    if f.x.is_empty() && kind > 0 {
+                        continue; // no operation: the image kind is irrelevant
+                    }
+                    let fun = family_fun(&[f], i0, i1, kind);
+                    let input = json!({"f": f.json(), "fq": [], "F": fun.json()});
+                    chk_map_arrow_lax(ctx, &input);
+                    if thorough || n_exh % 4 == 0 {
+                        chk_map_arrow_strict(ctx, &input);
+                    }
+                    n_exh += 1;
+                }
+            }
+        }
+    }
+
+    // (c) seeded random diagrams and functors
+    let n = ctx.budget(2500, 60000);
+    for i in 0..n {
+        let b = if i % 4 == 0 { GEN_MEDIUM } else { GEN_SMALL };
+        let f = random_model(&mut ctx.rng, b);
+        let fq = if i % 5 == 0 { gen_pending(&mut ctx.rng, &f, 3) } else { vec![] };
+        let fe = quotient(&f, &fq).unwrap().0;
+        let mode = [0usize, 0, 0, 5, 1, 3, 2, 4][ctx.rng.below(8)];
+        let kind = if ctx.rng.chance(1, 3) { Some(ctx.rng.below(KINDS)) } else { None };
+        let fun = gen_fun(&mut ctx.rng, &[&fe], mode, kind);
+        let input = json!({"f": f.json(), "fq": pairs_json(&fq), "F": fun.json()});
+        chk_map_arrow_lax(ctx, &input);
+        chk_map_arrow_strict(ctx, &input);
+        if i % 3 == 0 {
+            chk_pieces(ctx, &input);
+        }
+        if i % 4 == 0 {
+            chk_identity(ctx, &json!({"f": f.json(), "fq": pairs_json(&fq)}));
+        }
+    }
+    // operation-free diagrams with arbitrary wiring and many interface entries
+    let n = ctx.budget(300, 5000);
+    for _ in 0..n {
+        let mut f = random_model(&mut ctx.rng, Bounds { nodes: 4, edges: 0, arity: 0, iface: 6, labels: 3 });
+        f.x.clear();
+        f.src.clear();
+        f.tgt.clear();
+        let fun = gen_fun(&mut ctx.rng, &[&f], 0, None);
+        all3(ctx, &json!({"f": f.json(), "fq": [], "F": fun.json()}));
+    }
+
+    // functoriality: corner pairs, then random (composable by construction 2/3 of the time)
+    for (i, f) in corners.iter().enumerate() {
+        for (j, g) in corners.iter().enumerate() {
+            if !thorough && (i + j) % 3 != 0 {
+                continue;
+            }
+            let obj = objs[(i + 2 * j) % objs.len()].clone();
+            let fun = fun_with_obj(&mut ctx.rng, &[f, g], obj, None);
+            chk_functorial(ctx, &json!({"f": f.json(), "g": g.json(), "A": f.target_type(), "B": g.source_type(), "F": fun.json()}));
+        }
+    }
+    let n = ctx.budget(600, 15000);
+    for i in 0..n {
+        let b = if i % 4 == 0 { GEN_MEDIUM } else { GEN_SMALL };
+        let f = random_model(&mut ctx.rng, b);
+        let g = if ctx.rng.chance(2, 3) { random_model_with_source(&mut ctx.rng, b, &f.target_type()) } else { random_model(&mut ctx.rng, b) };
+        let mode = [0usize, 0, 5, 1, 3, 2][ctx.rng.below(6)];
+        let fun = gen_fun(&mut ctx.rng, &[&f, &g], mode, None);
+        let la = ctx.rng.below(4);
+        let lb = ctx.rng.below(4);
+        let a: Vec<u8> = (0..la).map(|_| ctx.rng.below(NLABELS) as u8).collect();
+        let bb: Vec<u8> = (0..lb).map(|_| ctx.rng.below(NLABELS) as u8).collect();
+        chk_functorial(ctx, &json!({"f": f.json(), "g": g.json(), "A": a, "B": bb, "F": fun.json()}));
+    }
+
+    ctx.notes.push(format!(
+        "rule: inputs are (diagram f, optional pending unifications fq, table functor F = object map label->list of labels + \
+         operation map (op,source type,target type)->diagram with optional pending unifications); oracle = generator-wise \
+         substitution by definition, compared up to isomorphism (model::iso). Enumeration: (a) {} corner diagrams x {} fixed object \
+         maps (lengths 0/1/2/3 mixed, erase-all, collapse, permutation) x {} image kinds (single op, arbitrary/cyclic diagram, \
+         spider-only, wires/discard/empty, two ops with pending unifications, label-merged, composite + zero-arity op); binomial \
+         chains of 2/8/64 nodes (63 ops) with wire-only and single-op images; 64-node lax input with 63 pending unifications; \
+         (b) exhaustive: all diagrams with <=2 nodes labelled 0/1, <=1 edge with source/target lists of length <=2, interfaces of \
+         length <={} ({} diagrams{}) x 27 family functors (|F(0)|,|F(1)| in 0..2, image single/wires/composite); (c) random: \
+         diagrams within (3 nodes,2 edges,arity 2,iface 3,labels 3) and (5,3,3,4,3), object-map lengths 0..3, one fifth given with \
+         <=3 pending unifications; operation-free diagrams with interfaces up to 6; functoriality on corner pairs and random \
+         (2/3 composable) pairs with random A,B of length <=3. non-trivial = the diagram has a node and an edge or an interface \
+         entry (for functoriality: both diagrams).",
+        corners.len(),
+        objs.len(),
+        KINDS,
+        if thorough { 2 } else { 1 },
+        small.len(),
+        if thorough { format!(" + {} two-edge diagrams with arity<=1, iface<=1", small2.len()) } else { String::new() }
+    ));
+}
